@@ -1,9 +1,9 @@
 (* Extraction of the executable model.  Only ExtrOcamlBasic's directives are in force
    (7 Extract Inductive: bool option unit list prod sumbool sumor; 2 Extract Inlined
    Constant: andb orb).  N, positive and nat are extracted as their inductive datatypes. *)
-From Ructe Require Import Nom Utf8 Compile UniTables.
+From Ructe Require Import Nom Utf8 Compile UniTables Io.
 Require Extraction ExtrOcamlBasic.
 
 Definition compile_m := compile uni_debug_esc.
 
-Extraction "model.ml" compile_m.
+Extraction "model.ml" compile_m to_html to_buffer buffer_eq.
